@@ -60,8 +60,14 @@ def check_artefact(ctx, a, stats):
             if opts.get("psi_interpolation_method", "spline") == "dct":
                 xtol = 0.03 * float(np.hypot(ref.R1D[1] - ref.R1D[0], ref.Z1D[1] - ref.Z1D[0]))
             else:
-                xtol = 2e-5
+                # find_critical stops at |grad psi|^2/R^2 < xpoint_refine_atol: position bound
+                # R*sqrt(atol)/lambda_min (smallest Hessian eigenvalue), cf. C03/C16
+                hRR_, hZZ_, hRZ_ = ref.hess(Rx, Zx)
+                lam_ = float(np.abs(np.linalg.eigvalsh(np.array([[float(hRR_), float(hRZ_)], [float(hRZ_), float(hZZ_)]]))).min())
+                xat_ = float(side["eq"]["user_options"].get("xpoint_refine_atol", 1e-6))
+                xtol = 2.0 * Rx * np.sqrt(xat_) / lam_ + 1e-6
                 stats["worst_xpoint_dist_spline"] = max(stats.get("worst_xpoint_dist_spline", 0.0), d)
+                ctx.setmax("worst_pinned_corner_distance_over_tol", d / xtol)
             # only a corner whose radial index is that X-point's separatrix is legitimately
             # pinned: psi at the X-point must be the psi-grid value of the corner's index
             # (tolerance: psi error of a critical point located to xpoint_refine_atol, cf. C03)
